@@ -1,0 +1,13 @@
+//go:build verif
+
+package prolog
+
+// SimYield is a hook for deterministic simulation. It's called before every channel operation and after every wake-up
+// of the query goroutine and its consumer. Only available with the verif build tag.
+var SimYield func(who interface{}, point string)
+
+func simYield(who interface{}, point string) {
+	if f := SimYield; f != nil {
+		f(who, point)
+	}
+}
